@@ -9,6 +9,8 @@ import PFV.Proofs.Tables
 import PFV.Proofs.ProcessFacts
 import PFV.Proofs.Cleanup
 import PFV.Proofs.BodyFacts
+import PFV.Proofs.ArbLawful
+import PFV.Proofs.MutFacts
 namespace PFV
 open Ref (RKind RState RMemo)
 
@@ -324,4 +326,212 @@ example : Run { version := 0 } (Gen.table 0)
     Body.step (by decide) (by decide) (by decide)
       (Body.step (by decide) (by decide) (by decide) Body.nil), by decide⟩
 
+end PFV
+
+namespace PFV
+open Mutators
+
+/-! ## C18 — entropy adapters -/
+namespace C18
+
+/-- **C18 (fuzzer bytes).**  The exact port of `arbitrary::Unstructured` satisfies the whole
+entropy contract for every state of the remaining bytes, the empty one included: an index among
+`n` is below `n` (0 for `n = 0`), a draw from `[a,b)` lies in it (`a` when `a ≥ b`), byte strings
+have the requested length, integers are inside their type's range. -/
+theorem arb_lawful : Lawful Arb.E := Arb.lawful
+
+/-- every drawn character is a member of `ASCII_CHARS`, for every lawful source -/
+theorem ascii_char_in_table {σ} (E : Entropy σ) (hE : Lawful E) (s : σ) :
+    (E.genAsciiChar s).1 ∈ Gen.asciiChars := by
+  have hpos : 0 < Gen.asciiChars.length := by decide
+  have hlt := hE.chooseIndex_lt s Gen.asciiChars.length hpos
+  simp only [Entropy.genAsciiChar]
+  have : Gen.asciiChars.getD (E.chooseIndex s Gen.asciiChars.length).1 0 =
+      Gen.asciiChars[(E.chooseIndex s Gen.asciiChars.length).1] := by
+    simp [List.getD, List.getElem?_eq_getElem hlt]
+  rw [this]
+  exact List.getElem_mem hlt
+
+/-- … and `ASCII_CHARS` (translated from `source.rs`) is printable ASCII -/
+theorem ascii_printable : ∀ b ∈ Gen.asciiChars, 32 ≤ b ∧ b ≤ 126 := Tables.ascii_printable
+
+/-- on exhausted input every draw returns its fixed fallback and the state stays exhausted -/
+theorem exhausted_fallbacks :
+    Arb.E.genBool [] = (false, []) ∧ Arb.E.genU8 [] = (0, []) ∧ Arb.E.genU16 [] = (0, []) ∧
+    Arb.E.genU32 [] = (0, []) ∧ Arb.E.genI32 [] = (0, []) ∧ Arb.E.genI64 [] = (0, []) ∧
+    Arb.E.genF64 [] = (0, []) ∧ Arb.E.genUnit [] = (0, []) ∧
+    (∀ n, Arb.E.chooseIndex [] n = (0, [])) ∧
+    (∀ a b, a < 2 ^ 64 → Arb.E.genRange [] a b = (a, [])) ∧
+    (∀ n, Arb.E.genBytes [] n = (List.replicate n 0, [])) := by
+  refine ⟨rfl, rfl, rfl, rfl, rfl, rfl, rfl, rfl, ?_, ?_, ?_⟩
+  · intro n
+    by_cases h : n = 0
+    · simp [Arb.E, h]
+    · simp only [Arb.E, h, if_false, Arb.intInRange]
+      by_cases h0 : 0 = n - 1
+      · simp [h0]
+      · simp only [h0, if_false]
+        have : Arb.consume (n - 1) 8 8 0 0 [] = (0, []) := by
+          simp only [Arb.consume]; split <;> rfl
+        simp [this]
+  · intro a b ha
+    by_cases h : a ≥ b
+    · simp [Arb.E, h]
+    · simp only [Arb.E, h, if_false, Arb.intInRange]
+      by_cases h0 : a = b - 1
+      · simp [h0]
+      · simp only [h0, if_false]
+        have : Arb.consume (b - 1 - a) 8 8 0 0 [] = (0, []) := by
+          simp only [Arb.consume]; split <;> rfl
+        have hlt : a < 2 ^ (8 * 8) := ha
+        simp only [this]
+        split <;> simp [Nat.mod_eq_of_lt hlt]
+  · intro n
+    cases n <;> simp [Arb.E]
+
+end C18
+end PFV
+
+namespace PFV
+open Mutators
+
+/-! ## C15 — the mutation rate at its extremes -/
+namespace C15
+variable {σ : Type} (E : Entropy σ)
+
+def rate0 : UInt64 := 0
+def rate1 : UInt64 := 0x3FF0000000000000
+
+/-- **C15, rate 0.0.**  For *every* entropy source (no contract needed: any PRNG state, any
+fuzzer bytes, exhausted or not), every mutator list and every value: no value is mutated … -/
+theorem rate0_values (ms : List Mut) (s : σ) :
+    (∀ v : Int, ∃ s', firstSome (mutateInt E 32 Gen.boundInt) ms v s rate0 = .ok (v, s', false)) ∧
+    (∀ v : UInt64, ∃ s', firstSome (mutateFloat E) ms v s rate0 = .ok (v, s', false)) ∧
+    (∀ v : List Char, ∃ s', firstSome (mutateString E) ms v s rate0 = .ok (v, s', false)) ∧
+    (∀ v : List UInt8, ∃ s', firstSome (mutateBytes E) ms v s rate0 = .ok (v, s', false)) ∧
+    (∀ v : Nat, ∃ s', firstSome (mutateMemo E) ms v s rate0 = .ok (v, s', false)) :=
+  ⟨fun v => firstSome_none _ _ (fun m v s => mutateInt_rate0 E 32 Gen.boundInt m v s) ms v s,
+   fun v => firstSome_none _ _ (fun m v s => mutateFloat_rate0 E m v s) ms v s,
+   fun v => firstSome_none _ _ (fun m v s => mutateString_rate0 E m v s) ms v s,
+   fun v => firstSome_none _ _ (fun m v s => mutateBytes_rate0 E m v s) ms v s,
+   fun v => firstSome_none _ _ (fun m v s => mutateMemo_rate0 E m v s) ms v s⟩
+
+/-- … and no emitted bytes are rewritten. -/
+theorem rate0_no_rewrite (ms : List Mut) (first : Option UInt8) (s : σ) :
+    ∃ s', postProcess E ms first none s rate0 = .ok (none, s') :=
+  postProcess_rate0 E ms first none s
+
+/-- **C15, rate 1.0.**  For every lawful entropy source: the first registered mutator that is
+applicable to the value kind mutates the value; mutators before it are skipped, mutators after
+it are not consulted. -/
+theorem rate1_int (hE : Lawful E) (pre post : List Mut) (m : Mut) (v : Int) (s : σ)
+    (hpre : ∀ p ∈ pre, appliesInt p = false) (hm : appliesInt m = true) :
+    ∃ s0 x s', mutateInt E 32 Gen.boundInt m v s0 rate1 = .ok (some x, s') ∧
+      firstSome (mutateInt E 32 Gen.boundInt) (pre ++ m :: post) v s rate1 = .ok (x, s', true) :=
+  firstSome_first _ _ v m post
+    (fun s => mutateInt_rate1 E hE 32 Gen.boundInt m v s hm (by decide) (by decide)) pre s
+    (fun p hp s => ⟨s, mutateInt_na E 32 Gen.boundInt p v s rate1 (hpre p hp)⟩)
+
+theorem rate1_float (hE : Lawful E) (pre post : List Mut) (m : Mut) (v : UInt64) (s : σ)
+    (hpre : ∀ p ∈ pre, appliesFloat p = false) (hm : appliesFloat m = true) :
+    ∃ s0 x s', mutateFloat E m v s0 rate1 = .ok (some x, s') ∧
+      firstSome (mutateFloat E) (pre ++ m :: post) v s rate1 = .ok (x, s', true) :=
+  firstSome_first _ _ v m post (fun s => mutateFloat_rate1 E hE m v s hm) pre s
+    (fun p hp s => ⟨s, mutateFloat_na E p v s rate1 (hpre p hp)⟩)
+
+theorem rate1_memo (hE : Lawful E) (pre post : List Mut) (m : Mut) (v : Nat) (s : σ)
+    (hpre : ∀ p ∈ pre, appliesMemo p = false) (hm : appliesMemo m = true) :
+    ∃ s0 x s', mutateMemo E m v s0 rate1 = .ok (some x, s') ∧
+      firstSome (mutateMemo E) (pre ++ m :: post) v s rate1 = .ok (x, s', true) :=
+  firstSome_first _ _ v m post (fun s => mutateMemo_rate1 E hE m v s hm) pre s
+    (fun p hp s => ⟨s, mutateMemo_na E p v s rate1 (hpre p hp)⟩)
+
+theorem rate1_string (hE : Lawful E) (pre post : List Mut) (m : Mut) (v : List Char) (s : σ)
+    (hv : v.length ≤ 2 ^ 64) (hu : utf8Len v ≤ 2 ^ 64)
+    (hpre : ∀ p ∈ pre, appliesSeq p v.isEmpty = false) (hm : appliesSeq m v.isEmpty = true) :
+    ∃ s0 x s', mutateString E m v s0 rate1 = .ok (some x, s') ∧
+      firstSome (mutateString E) (pre ++ m :: post) v s rate1 = .ok (x, s', true) :=
+  firstSome_first _ _ v m post (fun s => mutateString_rate1 E hE m v s hm hv hu) pre s
+    (fun p hp s => mutateString_na E p v s rate1 (hpre p hp))
+
+theorem rate1_bytes (hE : Lawful E) (pre post : List Mut) (m : Mut) (v : List UInt8) (s : σ)
+    (hv : v.length ≤ 2 ^ 64)
+    (hpre : ∀ p ∈ pre, appliesSeq p v.isEmpty = false) (hm : appliesSeq m v.isEmpty = true) :
+    ∃ s0 x s', mutateBytes E m v s0 rate1 = .ok (some x, s') ∧
+      firstSome (mutateBytes E) (pre ++ m :: post) v s rate1 = .ok (x, s', true) :=
+  firstSome_first _ _ v m post (fun s => mutateBytes_rate1 E hE m v s hm hv) pre s
+    (fun p hp s => mutateBytes_na E p v s rate1 (hpre p hp))
+
+/-- non-vacuity: the hypotheses are met by the fuzzer-bytes source (even exhausted) with the
+list [Character, BitFlip] on an integer: BitFlip fires -/
+example : ∃ s0 x s', mutateInt Arb.E 32 Gen.boundInt .bitflip 0 s0 rate1 = .ok (some x, s') ∧
+    firstSome (mutateInt Arb.E 32 Gen.boundInt) ([.character] ++ .bitflip :: []) 0 [] rate1 = .ok (x, s', true) :=
+  rate1_int Arb.E Arb.lawful [.character] [] .bitflip 0 [] (by decide) rfl
+
+end C15
+
+/-! ## C16 — each mutator's documented transformation (statements; proofs in `Proofs/MutFacts.lean`) -/
+namespace C16
+variable {σ : Type} (E : Entropy σ)
+
+theorem bitflip32 (hE : Lawful E) (v : Int) (s : σ) (rate : UInt64) (x : Int) (s' : σ)
+    (h : mutateInt E 32 Gen.boundInt .bitflip v s rate = .ok (some x, s')) :
+    ∃ pos, pos < 32 ∧ toU 32 x = toU 32 v ^^^ 2 ^ pos :=
+  bitflip_contract E hE 32 (by decide) (by decide) _ v s rate x s' h
+
+theorem bitflip64 (hE : Lawful E) (v : Int) (s : σ) (rate : UInt64) (x : Int) (s' : σ)
+    (h : mutateInt E 64 Gen.boundLong .bitflip v s rate = .ok (some x, s')) :
+    ∃ pos, pos < 64 ∧ toU 64 x = toU 64 v ^^^ 2 ^ pos :=
+  bitflip_contract E hE 64 (by decide) (by decide) _ v s rate x s' h
+
+theorem boundary_int (v : Int) (s : σ) (rate : UInt64) (x : Int) (s' : σ)
+    (h : mutateInt E 32 Gen.boundInt .boundary v s rate = .ok (some x, s')) : x ∈ Gen.boundInt :=
+  boundary_contract E 32 _ v s rate x s' h
+
+theorem boundary_long (v : Int) (s : σ) (rate : UInt64) (x : Int) (s' : σ)
+    (h : mutateInt E 64 Gen.boundLong .boundary v s rate = .ok (some x, s')) : x ∈ Gen.boundLong :=
+  boundary_contract E 64 _ v s rate x s' h
+
+theorem boundary_float (v : UInt64) (s : σ) (rate : UInt64) (x : UInt64) (s' : σ)
+    (h : mutateFloat E .boundary v s rate = .ok (some x, s')) : x ∈ Gen.boundFloat :=
+  boundary_float_contract E v s rate x s' h
+
+theorem offbyone_int (bits : Nat) (b : List Int) (v : Int) (s : σ) (rate : UInt64) (x : Int) (s' : σ)
+    (h : mutateInt E bits b .offbyone v s rate = .ok (some x, s')) :
+    x = wrap bits (v + 1) ∨ x = wrap bits (v - 1) := offbyone_contract E bits b v s rate x s' h
+
+theorem offbyone_memo (v : Nat) (s : σ) (rate : UInt64) (x : Nat) (s' : σ)
+    (h : mutateMemo E .offbyone v s rate = .ok (some x, s')) : x = satAdd1 v ∨ x = satSub1 v :=
+  offbyone_memo_contract E v s rate x s' h
+
+theorem memoindex (hE : Lawful E) (u : Bool) (v : Nat) (s : σ) (rate : UInt64) (x : Nat) (s' : σ)
+    (h : mutateMemo E (.memoindex u) v s rate = .ok (some x, s')) :
+    (u = false → x = v ∨ x = satAdd1 v ∨ x = satSub1 v) ∧ (u = true → x < 1000) :=
+  memoindex_contract E hE u v s rate x s' h
+
+theorem stringlen (hE : Lawful E) (v : List Char) (s : σ) (rate : UInt64) (x : List Char) (s' : σ)
+    (h : mutateString E .stringlen v s rate = .ok (some x, s')) :
+    (∃ n, x = v.take n) ∨
+    (∃ e, x = v ++ e ∧ 1 ≤ e.length ∧ e.length ≤ 9 ∧ ∀ ch ∈ e, 97 ≤ ch.toNat ∧ ch.toNat ≤ 122) ∨
+    x = v ++ v := stringlen_contract E hE v s rate x s' h
+
+theorem character (v : List Char) (s : σ) (rate : UInt64) (x : List Char) (s' : σ)
+    (h : mutateString E .character v s rate = .ok (some x, s')) :
+    ∃ i ch, x = v.set i ch ∧ 33 ≤ ch.toNat ∧ ch.toNat ≤ 126 := character_contract E v s rate x s' h
+
+theorem character_bytes (v : List UInt8) (s : σ) (rate : UInt64) (x : List UInt8) (s' : σ)
+    (h : mutateBytes E .character v s rate = .ok (some x, s')) : ∃ i b, x = v.set i b :=
+  character_bytes_contract E v s rate x s' h
+
+theorem typeconfusion_safe_is_identity (first : Option UInt8) (s : σ) (rate : UInt64) :
+    typeConfusion E false first s rate = .ok (none, s) := typeconfusion_safe E first s rate
+
+theorem typeconfusion (hE : Lawful E) (u : Bool) (first : Option UInt8) (s : σ) (rate : UInt64)
+    (r : Instr) (s' : σ) (h : typeConfusion E u first s rate = .ok (some r, s')) :
+    u = true ∧ tcInstrOk r = true ∧
+    ∃ b t0 t1, first = some b ∧ Gen.opcodeToType b = some t0 ∧
+      Gen.opcodeToType (Gen.asU8 r.op) = some t1 ∧ t1 ≠ t0 :=
+  typeconfusion_contract E hE u first s rate r s' h
+
+end C16
 end PFV
